@@ -2,6 +2,7 @@ import SSEPyVerif.Driver.BytesD
 import SSEPyVerif.Driver.CryptoD
 import SSEPyVerif.Driver.PersistD
 import SSEPyVerif.Driver.ServerD
+import SSEPyVerif.Driver.ClientD
 
 open SSEPy SSEPy.Driver
 
@@ -22,6 +23,7 @@ def dispatch (st : DState) (line : String) : DState × String :=
   | "ffx" :: rest => (st, ffxReq st.tables rest)
   | "lr" :: rest => (st, lrReq st.tables rest)
   | "pdict" :: rest => let (p, r) := pdictReq st.pdict rest; ({ st with pdict := p }, r)
+  | "cli" :: rest => (st, cliReq rest)
   | "srv" :: rest => let (p, r) := srvReq st.srv rest; ({ st with srv := p }, r)
   | "parr" :: rest => let (p, r) := parrReq st.parr rest; ({ st with parr := p }, r)
   | _ => (st, Proto.bad)
